@@ -72,6 +72,19 @@ static void set_profiles(Rng& r, std::shared_ptr<PhaseSpace> ps, const Setup& s,
     for (uint32_t b = 0; b < s.nb; b++) {
         boost::multi_array<projection_t, 1> p(boost::extents[s.n]);
         double mu = r.uni(0.3, 0.7) * s.n, sg = r.uni(1, s.n / 6.0), a = r.uni(0.1, 2);
+        if (flavour == 3) {
+            // profiles whose form factor has exact zeros inside the spectrum: a flat top of 2^k cells, or two equal
+            // narrow sub-bunches 2^k cells apart (notches at multiples of N/w resp. odd multiples of N/2d for power-of-two N)
+            uint32_t w = 1u << (uint32_t)r.range(1, 3); while (w > 1 && 2 * w + 3 > s.n) w /= 2;
+            uint32_t x0 = (uint32_t)r.range(1, std::max<int64_t>(1, (int64_t)s.n - 2 * (int64_t)w - 1));
+            bool two = r.chance(0.5);
+            for (uint32_t x = 0; x < s.n; x++) {
+                double v = two ? ((x == x0 || x == x0 + w) ? a : 0) : ((x >= x0 && x < x0 + w) ? a : 0);
+                p[x] = (float)v; rho[(size_t)b * s.n + x] = (double)p[x];
+            }
+            ps->setProjection(0, b, p);
+            continue;
+        }
         for (uint32_t x = 0; x < s.n; x++) {
             double v = (flavour == 0) ? r.uni(-1, 1) : (flavour == 1 ? a * std::exp(-0.5 * (x - mu) * (x - mu) / (sg * sg)) : (r.chance(0.15) ? r.uni(0, 1) : 0));
             p[x] = (float)v; rho[(size_t)b * s.n + x] = (double)p[x];
